@@ -24,7 +24,6 @@ RUN = "vf.checks.c11:run_one"
 URL = "http://mcp.test/mcp"
 
 REQ_KINDS = {"id-a": "a", "id-0": 0, "id-7": 7, "note": None}
-ENCODINGS = ["canonical", "no-event", "no-space", "crlf", "comments", "id-retry", "multi-data", "no-final-blank"]
 
 
 # ---------------------------------------------------------------------------
@@ -97,30 +96,64 @@ def body_messages(body: str, rid: Any) -> List[dict]:
     return {"resp": [R], "err": [E], "notifs+resp": [N1, N2, R], "wrong-id": [W], "batch": [N1, R]}[body]
 
 
-def sse_encode(msgs: List[dict], enc: str, as_batch: bool) -> str:
-    def ev(data: str, last: bool) -> str:
-        if enc == "canonical":
-            return f"event: message\ndata: {data}\n\n"
-        if enc == "no-event":
-            return f"data: {data}\n\n"
-        if enc == "no-space":
-            return f"event:message\ndata:{data}\n\n"
-        if enc == "crlf":
-            return f"event: message\r\ndata: {data}\r\n\r\n"
-        if enc == "comments":
-            return f": keep-alive\n\n: note\nevent: message\n: inside\ndata: {data}\n\n"
-        if enc == "id-retry":
-            return f"id: 41\nretry: 1500\nevent: message\ndata: {data}\n\n"
-        if enc == "multi-data":
-            cut = data.index(",") + 1
-            return f"event: message\ndata: {data[:cut]}\ndata: {data[cut:]}\n\n"
-        if enc == "no-final-blank":
-            return f"event: message\ndata: {data}\n" + ("" if last else "\n")
-        raise KeyError(enc)
+PREFIXES = ["none", "comment-block", "typed-event-without-data", "other-typed-event", "retry-only-block"]
+HEADERS = ["event-message", "no-event-field", "event-no-space", "id-retry-fields"]
+DATAFORMS = ["data-space", "data-no-space", "multi-data"]
+EOLS = ["lf", "crlf"]
 
+
+def _enc_name(p, h, d, e):
+    return f"{p}/{h}/{d}/{e}"
+
+
+ENCODINGS = [_enc_name(p, h, d, e) for p in PREFIXES for h in HEADERS for d in DATAFORMS for e in EOLS] + \
+    ["no-final-blank", "mixed"]
+LEGACY = {"canonical": "none/event-message/data-space/lf", "crlf": "none/event-message/data-space/crlf"}
+
+
+def _one_event(data: str, enc: str) -> str:
+    p, h, d, e = enc.split("/")
+    out = ""
+    if p == "comment-block":
+        out += ": keep-alive\n\n: note\n"
+    elif p == "typed-event-without-data":
+        out += "event: ping\n\n"
+    elif p == "other-typed-event":
+        out += "event: ping\ndata: {}\n\n"
+    elif p == "retry-only-block":
+        out += "retry: 3000\n\n"
+    if h == "event-message":
+        out += "event: message\n"
+    elif h == "event-no-space":
+        out += "event:message\n"
+    elif h == "id-retry-fields":
+        out += "id: 41\nretry: 1500\nevent: message\n: inside\n"
+    if d == "data-space":
+        out += f"data: {data}\n"
+    elif d == "data-no-space":
+        out += f"data:{data}\n"
+    else:
+        cut = data.index(",") + 1
+        out += f"data: {data[:cut]}\ndata: {data[cut:]}\n"
+    out += "\n"
+    if e == "crlf":
+        out = out.replace("\n", "\r\n")
+    return out
+
+
+def sse_encode(msgs: List[dict], enc: str, as_batch: bool) -> str:
+    enc = LEGACY.get(enc, enc)
+    plain = [e for e in ENCODINGS if "/" in e]
     if as_batch:
-        return ev(json.dumps(msgs, ensure_ascii=False), True)
-    return "".join(ev(json.dumps(m, ensure_ascii=False), i == len(msgs) - 1) for i, m in enumerate(msgs))
+        msgs = [msgs]
+    texts = [json.dumps(m, ensure_ascii=False) for m in msgs]
+    if enc == "no-final-blank":
+        body = "".join(_one_event(t, plain[0]) for t in texts)
+        return body[:-1]  # last event lacks its terminating blank line
+    if enc == "mixed":
+        # a different encoding for every message of the body, walking through the whole product
+        return "".join(_one_event(t, plain[(7 * i + 11) % len(plain)]) for i, t in enumerate(texts))
+    return "".join(_one_event(t, enc) for t in texts)
 
 
 def behaviours() -> List[Dict[str, Any]]:
